@@ -57,6 +57,9 @@ var origSyms = []sym{
 	{id: "minit", text: "func (t *T1) init() int { return 5 }", names: []string{"T1.init"}, kind: "method", recv: "T1"},
 	// package initialisers never override each other: both sides stay
 	{id: "pinit", text: "func init() { _, _ = two() }", names: []string{"init"}, kind: "pkginit"},
+	// a file whose only remaining reason to import unsafe is a go:linkname directive (last / not last line of its comment group)
+	{id: "lk1", text: "func fu1() uintptr { return unsafe.Sizeof(0) }\n\n// lk1 is provided elsewhere.\n//go:linkname lk1 runtime.lk1\nfunc lk1() int", names: []string{"fu1", "lk1"}, kind: "func", imports: []string{`"unsafe"`}},
+	{id: "lk2", text: "func fu2() uintptr { return unsafe.Sizeof(0) }\n\n//go:linkname lk2 runtime.lk2\n//go:noescape\nfunc lk2() int", names: []string{"fu2", "lk2"}, kind: "func", imports: []string{`"unsafe"`}},
 	// the only use of an import is in the signature
 	{id: "f3", text: "func f3(t *unicode.RangeTable) int { return 3 }", names: []string{"f3"}, kind: "func", imports: []string{`"unicode"`}},
 }
@@ -100,6 +103,12 @@ func overlayText(s sym, key, act string) (string, bool) {
 			if s.id == "f3" {
 				return "//gopherjs:keep-original\nfunc f3(t *unicode.RangeTable) int { return _gopherjs_original_f3(t) }", true
 			}
+			if name == "fu1" || name == "fu2" {
+				return "//gopherjs:keep-original\nfunc " + name + "() uintptr { return _gopherjs_original_" + name + "() + 1 }", true
+			}
+			if name == "lk1" || name == "lk2" {
+				return "", false // a body-less function has nothing to keep
+			}
 			return "//gopherjs:keep-original\nfunc " + name + "() int { return _gopherjs_original_" + name + "() + 1 }", true
 		case "purge":
 			return "//gopherjs:purge\nfunc " + name + "()", true
@@ -109,6 +118,9 @@ func overlayText(s sym, key, act string) (string, bool) {
 			}
 			if s.id == "f3" {
 				return "//gopherjs:override-signature\nfunc f3(t int) int", true
+			}
+			if name == "fu1" || name == "fu2" {
+				return "//gopherjs:override-signature\nfunc " + name + "() uintptr", true
 			}
 			return "//gopherjs:override-signature\nfunc " + name + "() int", true
 		}
@@ -165,9 +177,9 @@ func overlayText(s sym, key, act string) (string, bool) {
 }
 
 var actsByKind = map[string][]string{
-	"func":   {"override", "keep", "purge", "sig"},
-	"method": {"override", "keep", "purge", "sig"},
-	"type":   {"override", "purge", "purgespec"},
+	"func":    {"override", "keep", "purge", "sig"},
+	"method":  {"override", "keep", "purge", "sig"},
+	"type":    {"override", "purge", "purgespec"},
 	"var":     {"override", "purge", "purgespec"},
 	"const":   {"override", "purge", "purgespec"},
 	"pkginit": {"override"},
@@ -211,10 +223,10 @@ func fileText(decls []string, imports []string, extra string) string {
 
 // declared keys of a set of files -> count; plus func signatures and var/const specs
 type pkgFacts struct {
-	keys   map[string]int
-	sigs   map[string]string
-	consts map[string]string
-	order  []string
+	keys    map[string]int
+	sigs    map[string]string
+	consts  map[string]string
+	order   []string
 	imports map[string]bool
 }
 
@@ -285,16 +297,16 @@ func check(fset *token.FileSet, files []*ast.File) (*types.Info, error) {
 
 // prepared is one (original symbols, overlay actions) pair, rendered to sources.
 type prepared struct {
-	id        string
-	syms      []sym
-	acts      []action
-	byKey     map[string]sym
-	newSym    bool
-	split     bool // every original declaration in its own file
-	isTest    bool
-	origFiles map[string]string // file name -> source
-	origNames []string
-	ovSrc     string
+	id         string
+	syms       []sym
+	acts       []action
+	byKey      map[string]sym
+	newSym     bool
+	split      bool // every original declaration in its own file
+	isTest     bool
+	origFiles  map[string]string // file name -> source
+	origNames  []string
+	ovSrc      string
 	importPath string
 }
 
@@ -569,6 +581,25 @@ func evalPair(r *Result, p *prepared) {
 			problems = append(problems, "import "+im+" of the original was dropped")
 		}
 	}
+	// an original file that still carries a go:linkname directive must still import unsafe
+	for i, f := range pfiles {
+		hasDirective, hasUnsafe := false, false
+		for _, cg := range f.Comments {
+			for _, c := range cg.List {
+				if strings.HasPrefix(c.Text, "//go:linkname ") {
+					hasDirective = true
+				}
+			}
+		}
+		for _, is := range f.Imports {
+			if is.Path.Value == `"unsafe"` {
+				hasUnsafe = true
+			}
+		}
+		if hasDirective && !hasUnsafe {
+			problems = append(problems, fmt.Sprintf("merged file %d keeps a go:linkname directive but no longer imports unsafe", i))
+		}
+	}
 	// files: the overlay files come first, under the documented name in the package directory; .inc.js files are found
 	if len(merged) > 0 {
 		first := fset.Position(merged[0].Package).Filename
@@ -753,24 +784,48 @@ func runImportSubst(r *Result) {
 	for _, p := range listed {
 		isListed[p] = true
 	}
-	type job struct {
-		path     string
-		form     int
-		override bool
+	// what the overlay directory of the package holds
+	overlays := []struct {
+		name  string
+		files map[string]string
+	}{
+		{"helper", map[string]string{"ov.go": "package p\n\nfunc helper() int { return 1 }\n"}},
+		{"none", nil},
+		{"empty", map[string]string{"ov.go": "package p\n"}},
+		{"testonly", map[string]string{"ov_test.go": "package p\n\nfunc helper() int { return 1 }\n"}},
+		{"incjsonly", map[string]string{"x.inc.js": "// js\n"}},
 	}
-	var jobs []job
-	fsFiles := map[string]string{}
-	for _, ip := range append(append([]string{}, listed...), unlisted...) {
-		for fi := range forms {
-			jobs = append(jobs, job{ip, fi, false}, job{ip, fi, true})
+	for _, ov := range overlays {
+		var jobs []importJob
+		fsFiles := map[string]string{"src/placeholder/p.go": "package placeholder\n"}
+		for _, ip := range append(append([]string{}, listed...), unlisted...) {
+			for fi := range forms {
+				jobs = append(jobs, importJob{ip, fi, false, ov.name})
+				if ov.name == "helper" {
+					jobs = append(jobs, importJob{ip, fi, true, ov.name})
+				}
+			}
+			for n, src := range ov.files {
+				fsFiles["src/"+ip+"/"+n] = src
+			}
 		}
-		fsFiles["src/"+ip+"/ov.go"] = "package p\n\nfunc helper() int { return 1 }\n"
+		runImportJobs(r, fsFiles, jobs, forms, isListed)
 	}
+}
+
+type importJob struct {
+	path     string
+	form     int
+	override bool
+	overlay  string
+}
+
+func runImportJobs(r *Result, fsFiles map[string]string, jobs []importJob, forms []struct{ spec, use, wantListed string }, isListed map[string]bool) {
 	restore := natives.VerifSetFS(fsFiles)
 	defer restore()
 	for _, j := range jobs {
 		f := forms[j.form]
-		id := fmt.Sprintf("C12/imports/pkg=%s/form=%s/override=%v", j.path, strings.ReplaceAll(f.spec, `"`, ""), j.override)
+		id := fmt.Sprintf("C12/imports/pkg=%s/form=%s/overlay=%s/override=%v", j.path, strings.ReplaceAll(f.spec, `"`, ""), j.overlay, j.override)
 		orig := "package p\n\nimport " + f.spec + "\nimport \"unicode/utf8\"\n\nvar mu " + f.use + ".Mutex\n\nfunc helper() int { return utf8.RuneLen('x') }\n\nfunc other() int { return 2 }\n"
 		if !j.override {
 			orig = strings.Replace(orig, "func helper() int { return utf8.RuneLen('x') }", "func helper2() int { return utf8.RuneLen('x') }", 1)
